@@ -32,7 +32,7 @@ func reg(c PropCfg) PropCfg { cfgs[c.ID] = c; return c }
 
 var cfgC02 = reg(PropCfg{
 	ID: "C02",
-	Profile: &Profile{Weights: mixedWeights(), PBulk: 14, MinBlocks: 8, MaxBlocks: 40, MaxTxs: 4, MaxOps: 3, PUpper: 5, PActor: 8, PNamed: 2, PFault: 4, PExec: 8,
+	Profile: &Profile{PReimport: 3, Weights: mixedWeights(), PBulk: 14, MinBlocks: 8, MaxBlocks: 40, MaxTxs: 4, MaxOps: 3, PUpper: 5, PActor: 8, PNamed: 2, PFault: 4, PExec: 8,
 		PGovParams: 6, PBadRef: 5, Vesting: true, TinyLimits: true, ValidParams: true, LongTime: true, EntDenomChange: true},
 	Rule: "history (generated genesis + blocks of signed txs) with >=1 block in which an order completes and >=1 successful non-enterprise tx in a block without completion; distinct by scenario hash",
 	NonTrivial: func(w *World) bool {
@@ -44,7 +44,7 @@ var cfgC02 = reg(PropCfg{
 
 var cfgC03 = reg(PropCfg{
 	ID: "C03",
-	Profile: &Profile{Weights: entWeights(), PBulk: 12, MinBlocks: 5, MaxBlocks: 35, MaxTxs: 4, MaxOps: 2, PUpper: 15, PActor: 8, PNamed: 1, PFault: 2, PExec: 6,
+	Profile: &Profile{PReimport: 3, Weights: entWeights(), PBulk: 12, MinBlocks: 5, MaxBlocks: 35, MaxTxs: 4, MaxOps: 2, PUpper: 15, PActor: 8, PNamed: 1, PFault: 2, PExec: 6,
 		PGovParams: 8, PBadRef: 4, ValidParams: true},
 	Rule: "history in which >=1 order reaches completed and >=1 reaches rejected, or parameters change while an order is raised/accepted",
 	NonTrivial: func(w *World) bool {
@@ -56,7 +56,7 @@ var cfgC03 = reg(PropCfg{
 
 var cfgC04 = reg(PropCfg{
 	ID: "C04",
-	Profile: &Profile{Weights: c04Weights(), PBulk: 8, PEscrow: 25, LockedActors: true, MultiPct: 20, PGranter: 12, PFeePayer: 8, MinBlocks: 8, MaxBlocks: 40, MaxTxs: 4, MaxOps: 3, PUpper: 5, PActor: 10, PNamed: 2, PFault: 5, PExec: 6,
+	Profile: &Profile{PReimport: 3, Weights: c04Weights(), PBulk: 8, PEscrow: 25, LockedActors: true, MultiPct: 20, PGranter: 12, PFeePayer: 8, MinBlocks: 8, MaxBlocks: 40, MaxTxs: 4, MaxOps: 3, PUpper: 5, PActor: 10, PNamed: 2, PFault: 5, PExec: 6,
 		PGovParams: 0, PBadRef: 5, Vesting: true, TinyLimits: true, ValidParams: true, FeeModes: []int{FeeExact, FeeExact, FeeExact, FeeLower, FeeHigher, FeeNone, FeeExactPlusExtraDenom, FeeExactPlusExtraDenom}},
 	Rule: "history with >=1 completion and >=1 partial unlock (0 < fee < locked) or a failed fee-paying tx of a locked payer",
 	NonTrivial: func(w *World) bool {
@@ -68,7 +68,7 @@ var cfgC04 = reg(PropCfg{
 
 var cfgC05 = reg(PropCfg{
 	ID: "C05",
-	Profile: &Profile{Weights: map[string]int{FeeGrantOp: 3, EntRaise: 14, EntDecide: 28, EntWL: 3, WrkReg: 8, WrkRec: 14, WrkPur: 4, BcnReg: 7, BcnRec: 12, BcnPur: 3, BankSend: 5, StrCreate: 3, StrClaim: 2, StrCancel: 1, StakeDeleg: 1},
+	Profile: &Profile{PReimport: 3, Weights: map[string]int{FeeGrantOp: 3, EntRaise: 14, EntDecide: 28, EntWL: 3, WrkReg: 8, WrkRec: 14, WrkPur: 4, BcnReg: 7, BcnRec: 12, BcnPur: 3, BankSend: 5, StrCreate: 3, StrClaim: 2, StrCancel: 1, StakeDeleg: 1},
 		PBulk: 10, MinBlocks: 8, MaxBlocks: 40, MaxTxs: 4, MaxOps: 3, MultiPct: 30, PSameKind: 25, LockedActors: true, PGranter: 12, PFeePayer: 10, PUpper: 5, PActor: 10, PNamed: 3, PFault: 8, PExec: 8,
 		PGovParams: 0, PBadRef: 5, Vesting: true, TinyLimits: true, ValidParams: true, FeeModes: []int{FeeExact, FeeExact, FeeExact, FeeLower, FeeHigher, FeeNone, FeeExactPlusExtraDenom}},
 	Rule: "history containing >=1 tx whose fee payer has locked eFUND > 0",
@@ -82,7 +82,7 @@ func regWeights() map[string]int {
 }
 
 func regProfile() *Profile {
-	return &Profile{Weights: regWeights(), PSameKind: 30, PForward: 50, PRetry: 6, PCheck: 7, GasSweep: true, MultiPct: 18, PExecTail: 12, PBulk: 8, MinBlocks: 6, MaxBlocks: 30, MaxTxs: 5, MaxOps: 3, PUpper: 8, PActor: 10, PNamed: 2, PFault: 2, PExec: 10,
+	return &Profile{Weights: regWeights(), PReimport: 4, PSameKind: 30, PForward: 50, PRetry: 6, PCheck: 7, GasSweep: true, MultiPct: 18, PExecTail: 12, PBulk: 8, MinBlocks: 6, MaxBlocks: 30, MaxTxs: 5, MaxOps: 3, PUpper: 8, PActor: 10, PNamed: 2, PFault: 2, PExec: 10,
 		PGovParams: 7, PBadRef: 5, TinyLimits: true, ValidParams: true, GovKinds: []string{ParamsWrk, ParamsBcn}}
 }
 
@@ -124,9 +124,9 @@ var cfgC09 = reg(PropCfg{
 
 var cfgC06 = reg(PropCfg{
 	ID: "C06",
-	Profile: &Profile{Weights: map[string]int{WrkReg: 12, WrkRec: 22, WrkPur: 12, BcnReg: 10, BcnRec: 18, BcnPur: 10, BankSend: 6, EntRaise: 8, EntDecide: 14, StrCreate: 2, FeeGrantOp: 5},
+	Profile: &Profile{PReimport: 3, Weights: map[string]int{WrkReg: 12, WrkRec: 22, WrkPur: 12, BcnReg: 10, BcnRec: 18, BcnPur: 10, BankSend: 6, EntRaise: 8, EntDecide: 14, StrCreate: 2, FeeGrantOp: 5},
 		MinBlocks: 6, MaxBlocks: 25, MaxTxs: 6, MaxOps: 4, PUpper: 3, PActor: 4, PNamed: 1, PFault: 3, PExec: 12, PGovParams: 8, PBadRef: 3, TinyLimits: false,
-		ValidParams: true, GovKinds: []string{ParamsWrk, ParamsBcn}, PCheck: 60, LockedActors: true, PGranter: 15,
+		ValidParams: true, GovKinds: []string{ParamsWrk, ParamsBcn}, PCheck: 60, LockedActors: true, PGranter: 15, NodeMinGas: true, RegDenomMix: true,
 		FeeModes: []int{FeeExact, FeeExact, FeeExact, FeeNone, FeeLower, FeeHigher, FeeExactPlusExtraDenom, FeeOnlyExtraDenom, FeeLowerPlusExtraDenom, FeeHigherPlusExtraDenom, FeeFirstModuleOnly, FeeSubset, FeeSubset}, MultiPct: 30, PSameKind: 50, PFeePayer: 8},
 	Rule: "history containing >=1 CheckTx of a tx with >=1 WRKChain/BEACON operation and valid signature/sequence (reaches the fee decorators); distinct by scenario hash",
 	NonTrivial: func(w *World) bool { return w.Classes["c06.feeop-tx-reaching-fee-checks"] > 0 },
@@ -137,7 +137,7 @@ var cfgC06 = reg(PropCfg{
 func streamProfile() *Profile {
 	return &Profile{Weights: map[string]int{StrCreate: 12, StrClaim: 26, StrTopUp: 10, StrUpdate: 8, StrCancel: 6, BankSend: 5, WrkReg: 1, EntRaise: 1},
 		MinBlocks: 6, MaxBlocks: 30, MaxTxs: 4, MaxOps: 2, PUpper: 6, PActor: 8, PNamed: 2, PFault: 2, PExec: 6, PGovParams: 8, PBadRef: 4,
-		BigAmounts: true, ValidParams: true, LongTime: true, GovKinds: []string{ParamsStr}, PEscrow: 8}
+		BigAmounts: true, ValidParams: true, LongTime: true, GovKinds: []string{ParamsStr}, PEscrow: 8, PReimport: 4}
 }
 
 var cfgC10 = reg(PropCfg{
@@ -171,7 +171,7 @@ func TestC11(t *testing.T) { RunProperty(t, cfgC11) }
 func TestC12(t *testing.T) { RunProperty(t, cfgC12) }
 var cfgC17 = reg(PropCfg{
 	ID: "C17",
-	Profile: &Profile{Weights: mixedWeights(), MinBlocks: 8, MaxBlocks: 40, MaxTxs: 4, MaxOps: 2, PUpper: 4, PActor: 5, PNamed: 1, PFault: 2, PExec: 5,
+	Profile: &Profile{PReimport: 3, Weights: mixedWeights(), MinBlocks: 8, MaxBlocks: 40, MaxTxs: 4, MaxOps: 2, PUpper: 4, PActor: 5, PNamed: 1, PFault: 2, PExec: 5,
 		PGovParams: 0, PBadRef: 3, Vesting: true, TinyLimits: true, ValidParams: true, BigAmounts: true, ManyDenoms: true},
 	Rule: "history reaching a committed state with 0 < locked < supply, >= 3 denominations and a page limit below the number of denominations (>= 2 pages)",
 	NonTrivial: func(w *World) bool { return w.Classes["c17.locked-partial"] > 0 && w.Classes["c17.multi-page-3-denoms"] > 0 },
@@ -182,7 +182,7 @@ var cfgC17 = reg(PropCfg{
 func TestC17(t *testing.T) { RunProperty(t, cfgC17) }
 var cfgC14 = reg(PropCfg{
 	ID: "C14",
-	Profile: &Profile{Weights: mixedWeights(), MinBlocks: 8, MaxBlocks: 40, MaxTxs: 4, MaxOps: 4, PUpper: 6, PActor: 8, PNamed: 2, PFault: 4, PExec: 8,
+	Profile: &Profile{PReimport: 3, Weights: mixedWeights(), MinBlocks: 8, MaxBlocks: 40, MaxTxs: 4, MaxOps: 4, PUpper: 6, PActor: 8, PNamed: 2, PFault: 4, PExec: 8,
 		PGovParams: 14, GovKinds: []string{ParamsEnt, ParamsEnt, ParamsWrk, ParamsBcn, ParamsStr}, PBadRef: 5, Vesting: true, TinyLimits: true, BigAmounts: true, EntDenomChange: true, LongTime: true, GasSweep: true, MultiPct: 35, PGranter: 10, PFeePayer: 6, PExecTail: 8},
 	Rule: "history with a failed multi-message tx whose first message was viable alone, or enterprise parameters changed while an order was queued",
 	NonTrivial: func(w *World) bool {
@@ -195,10 +195,10 @@ var cfgC14 = reg(PropCfg{
 func TestC14(t *testing.T) { RunProperty(t, cfgC14) }
 var cfgC13 = reg(PropCfg{
 	ID: "C13",
-	Profile: &Profile{Weights: map[string]int{EntRaise: 8, EntDecide: 12, EntWL: 6, WrkReg: 5, WrkRec: 9, WrkPur: 4, BcnReg: 5, BcnRec: 8, BcnPur: 4,
+	Profile: &Profile{PReimport: 3, Weights: map[string]int{EntRaise: 8, EntDecide: 12, EntWL: 6, WrkReg: 5, WrkRec: 9, WrkPur: 4, BcnReg: 5, BcnRec: 8, BcnPur: 4,
 		StrCreate: 8, StrClaim: 8, StrTopUp: 4, StrUpdate: 4, StrCancel: 4, ParamsEnt: 2, ParamsWrk: 2, ParamsBcn: 2, ParamsStr: 2, BankSend: 2, FeeGrantOp: 3},
 		MinBlocks: 8, MaxBlocks: 35, MaxTxs: 5, MaxOps: 2, PUpper: 8, PActor: 30, PNamed: 12, PFault: 6, PExec: 14, PGovParams: 6, PBadRef: 3,
-		TinyLimits: true, MultiPct: 10, PFeePayer: 5, PForward: 40, PRetry: 5, PGranter: 12, PExecTail: 10, PEscrow: 5},
+		TinyLimits: true, MultiPct: 10, PFeePayer: 5, PForward: 40, PRetry: 5, PGranter: 12, PExecTail: 10, PEscrow: 5, RegDenomMix: true, LockedActors: true},
 	Rule: "history containing >=1 attempt by an unentitled party on a live target (the same message would be meaningful for the entitled party); distinct by scenario hash",
 	NonTrivial: func(w *World) bool { return w.Classes["c13.attempt-on-live-target"] > 0 },
 	MinClasses: map[string]int{"c13.attempt-on-live-target": 200, "c13.entitled-control-ok": 500, "c13.attempt.exec-without-grant": 20, "c13.attempt.names-other-account": 20, "c13.control-via-grant": 3},
@@ -208,7 +208,7 @@ var cfgC13 = reg(PropCfg{
 func TestC13(t *testing.T) { RunProperty(t, cfgC13) }
 var cfgC16 = reg(PropCfg{
 	ID: "C16",
-	Profile: &Profile{Weights: mixedWeights(), MinBlocks: 10, MaxBlocks: 40, MaxTxs: 3, MaxOps: 2, PUpper: 4, PActor: 4, PNamed: 1, PFault: 1, PExec: 4,
+	Profile: &Profile{PReimport: 3, Weights: mixedWeights(), MinBlocks: 10, MaxBlocks: 40, MaxTxs: 3, MaxOps: 2, PUpper: 4, PActor: 4, PNamed: 1, PFault: 1, PExec: 4,
 		PGovParams: 40, PBadRef: 3, TinyLimits: true, DupSigners: false},
 	Oracles: []string{"C16", "C03", "C08", "C10"},
 	Alias:   map[string]string{"C03": ParamsEnt, "C08": ParamsWrk, "C10": ParamsStr},
@@ -223,7 +223,7 @@ var cfgC16 = reg(PropCfg{
 func TestC16(t *testing.T) { RunProperty(t, cfgC16) }
 var cfgC20 = reg(PropCfg{
 	ID: "C20",
-	Profile: &Profile{Weights: map[string]int{EntRaise: 14, EntDecide: 20, EntWL: 8, WrkReg: 12, WrkRec: 6, BcnReg: 12, BcnRec: 6, StrCreate: 16, StrClaim: 4, StrCancel: 3, BankSend: 2},
+	Profile: &Profile{PReimport: 3, Weights: map[string]int{EntRaise: 14, EntDecide: 20, EntWL: 8, WrkReg: 12, WrkRec: 6, BcnReg: 12, BcnRec: 6, StrCreate: 16, StrClaim: 4, StrCancel: 3, BankSend: 2},
 		MinBlocks: 6, MaxBlocks: 25, MaxTxs: 6, MaxOps: 2, PUpper: 10, PActor: 3, PNamed: 1, PFault: 1, PExec: 3, PGovParams: 3, PBadRef: 2, ValidParams: true, TinyLimits: true, PBulk: 10},
 	Rule: "history reaching a committed state in which a filter matches a strict, non-empty subset of a collection and a list query needs >= 2 pages",
 	NonTrivial: func(w *World) bool { return w.Classes["c20.filter-strict-subset"] > 0 && w.Classes["c20.multi-page"] > 0 },
